@@ -74,6 +74,15 @@ def gen_programs(ctx, n_random, max_small_ops, extra_parens=False):
 def compare_prog(ctx, cases, meta, impl, model, want_balance=True, log_check=True):
     """the C01-style oracle: value, host-call trace, stack balance. Returns (stats, disagreements)."""
     stats = {}
+    # a run cut at the harness's default step budget while the reference evaluator finishes within its fuel says nothing
+    # about termination: such cases are run again with an 80-fold budget before they are compared
+    cut = [c for c in cases if parse_impl(impl.get(c[1]))['kind'] == 'steplimit' and parse_spec(model.get(c[1]))['kind'] == 'ok'][:200]
+    if cut:
+        again = vlib.run_impl(cut, 'steplimit-retry', per_case_s=60.0, extra_env={'GHARNESS_STEP_LIMIT': '400000'})
+        for c in cut:
+            if again.get(c[1]):
+                impl[c[1]] = again[c[1]]
+        stats['re-run with a larger step budget'] = len(cut)
     for c in cases:
         cid = c[1]
         pi, ps = parse_impl(impl.get(cid)), parse_spec(model.get(cid))
